@@ -120,6 +120,15 @@ class RenderNode(Node):
 
                 for itm in forloop:
                     namespace[key] = itm
+                    # A fresh context per item: nothing the partial assigns or
+                    # counts while rendering one item is visible to the next.
+                    ctx = context.copy(
+                        token=self.token,
+                        namespace=namespace,
+                        disabled_tags=self.disabled,
+                        carry_loop_iterations=True,
+                        template=template,
+                    )
                     character_count += template.render_with_context(
                         ctx, buffer, partial=True, block_scope=True
                     )
@@ -182,6 +191,15 @@ class RenderNode(Node):
 
                 for itm in forloop:
                     namespace[key] = itm
+                    # A fresh context per item: nothing the partial assigns or
+                    # counts while rendering one item is visible to the next.
+                    ctx = context.copy(
+                        token=self.token,
+                        namespace=namespace,
+                        disabled_tags=self.disabled,
+                        carry_loop_iterations=True,
+                        template=template,
+                    )
                     character_count += await template.render_with_context_async(
                         ctx, buffer, partial=True, block_scope=True
                     )
